@@ -119,7 +119,7 @@ def replace_chain(prep, method_name):
     return ops
 
 
-LEGAL_SHAPE = re.compile(r"^\^\[[^\]\\]+\]\+\$$")
+LEGAL_SHAPE = re.compile(r"^\^\[[^\]\\]+\]\+(\$|\\Z)$")  # ^[class]+$  or  ^[class]+\Z
 _legal_cache = {}
 
 
